@@ -71,7 +71,7 @@ OpOfEvent ==
     [] e.op \in {"pop_if", "pop_min_if", "pop_max_if"} -> [op |-> e.op, yes |-> e.yes, set |-> SetOf(e.set)]
     [] e.op \in {"retain", "retain_mut"} ->
          [op |-> e.op, keep |-> {e.calls[i].k : i \in {j \in 1..Len(e.calls) : e.calls[j].keep}}, set |-> SetFn(e.calls)]
-    [] e.op = "iter_mut" -> [op |-> e.op, n |-> e.nf, nb |-> e.nb, set |-> SetFn(e.ys), forget |-> e.forget]
+    [] e.op = "iter_mut" -> [op |-> e.op, n |-> e.nf, nb |-> e.nb, bf |-> e.bf, set |-> SetFn(e.ys), forget |-> e.forget]
     [] e.op \in {"extend", "from_vec", "from_iter", "de"} ->
          [op |-> e.op, pairs |-> PairSeq(e.pairs), hint |-> IF "hint" \in DOMAIN e THEN e.hint ELSE <<>>]
     [] OTHER -> [op |-> e.op]
